@@ -137,10 +137,11 @@ def lifecycle(ctx, case, pretouch=False, edit=False):
                  "sequence): {} vs {}".format(_outcome(r2)[1][:200], _outcome(fresh)[1][:200]), case)
         return
     if edit and case["mods"]:
-        rng = ctx.rng
-        i = rng.randrange(len(case["mods"]))
+        import random
+        rng = random.Random(repr(sorted((m["oid"], m["word"]) for m in case["mods"])))   # same choices on replay
+        i = rng.randrange(len(case["mods"]) + 1)        # a module, or (last index) the vector
         case2 = copy.deepcopy(case)
-        m = case2["mods"][i]
+        m = case2["mods"][i] if i < len(case["mods"]) else case2["vector"]
         n = len(m["word"])
         feats = list(m["feats"])
         if feats:
@@ -149,12 +150,13 @@ def lifecycle(ctx, case, pretouch=False, edit=False):
         feats.append([1, "u97", [], [[a, rng.randint(a + 1, n), rng.choice([1, -1])]]])
         m["feats"] = feats
         op2 = asm_op(case2)
-        live = objs[op2[4][i].oid].record
-        live.features[:] = impl.mk_record(op2[4][i].crec).features
+        spec = op2[4][i] if i < len(case["mods"]) else op2[3]
+        live = objs[spec.oid].record
+        live.features[:] = impl.mk_record(spec.crec).features
         r3, _, _ = impl.run_asm(op2, entities=ents)
         fresh3, _, _ = impl.run_asm(op2)
         if _outcome(r3) != _outcome(fresh3):
-            ctx.fail("after curating the feature table of module {} in place, assembling the same objects again "
+            ctx.fail("after curating the feature table of input {} in place, assembling the same objects again "
                      "does not reflect the edit: {} vs {}".format(m["oid"], _outcome(r3)[1][:200],
                                                                   _outcome(fresh3)[1][:200]), case)
     ctx.note("lifecycle" + ("+pretouch" if pretouch else "") + ("+edit" if edit else ""))
